@@ -319,6 +319,11 @@ def dir_runs(shard, rec, lib, scratch):
         shutil.rmtree(d, ignore_errors=True)
         os.makedirs(os.path.join(d, "sub"))
         names = ["a.css", os.path.join("sub", "b.css"), "c.css"][:rnd.choice([2, 3])]
+        if si % 4 == 3:
+            # stylesheets whose name, or whose directory's name, starts with a dot are stylesheets like any other
+            names = [".print.css", os.path.join(".storybook", "preview.css"), "c.css"][:rnd.choice([2, 3])]
+            os.makedirs(os.path.join(d, ".storybook"))
+            rec.count("dir_runs_with_dot_names")
         sheets = {}
         for k, rel in enumerate(names):
             sh = SS.make_sheet(rnd, premium=st["premium"], default_bg=dbg, rich=False, n_rules=rnd.choice([2, 4, 6]), tag=f"d{k}r",
